@@ -1,2 +1,176 @@
+//! C19 — CL03 proof responses statistically mask the secrets they answer for.
+//! Attacker-side recomputation monitor: divide every response by every recomputable challenge and
+//! by every other response and look for the prover's secrets.
+
+use crate::bundles::*;
+use crate::clutil::*;
 use crate::common::*;
-pub fn scenarios(_ctx: &Ctx) -> Vec<Scenario> { vec![] }
+use rug::{integer::Order, Integer};
+use serde_json::{json, Value};
+use sha2::{Digest, Sha256};
+
+fn hash_dec(parts: &[&Integer]) -> Integer {
+    let s: String = parts.iter().map(|p| p.to_string()).collect();
+    Integer::from_digits(Sha256::digest(s.as_bytes()).as_slice(), Order::MsfBe)
+}
+
+/// Fiat-Shamir challenges the recipient can recompute from public data
+fn challenges(b: &Bundle) -> Vec<(String, Integer)> {
+    let mut out: Vec<(String, Integer)> = vec![];
+    let ls = leaves(&b.json);
+    for (p, v) in &ls {
+        let last = p.rsplit('/').next().unwrap();
+        if last == "challenge" {
+            out.push((format!("explicit:{}", path_class(p)), v.clone()));
+        }
+        if last == "C" {
+            out.push((format!("explicit:{}", path_class(p)), v.clone()));
+            out.push((format!("explicit-mod-2^t:{}", path_class(p)), Integer::from(v.keep_bits_ref(128))));
+        }
+    }
+    // nisp2sec objects {t, s1, s2} next to a commitment {value, ..}: c = H(g || h || commitment.value || t)
+    fn walk(v: &Value, path: String, b: &Bundle, out: &mut Vec<(String, Integer)>) {
+        if let Value::Object(o) = v {
+            if let (Some(val), Some(com)) = (o.get("value"), o.get("commitment")) {
+                if let (Some(t), Some(cv)) = (val.get("t"), com.get("value")) {
+                    let (t, cv) = (leaf_to_int(t), leaf_to_int(cv));
+                    for (bl, g, h) in &b.base_pairs {
+                        out.push((format!("nispTwoSecrets{}:{}", bl, path_class(&path)), hash_dec(&[g, h, &cv, &t])));
+                    }
+                }
+            }
+            if let (Some(t), Some(Value::Array(_)), Some(_)) = (o.get("t"), o.get("s1"), o.get("s2")) {
+                // nispMultiSecrets: c = H(a_i for i in U || h || C || t)
+                let t = leaf_to_int(t);
+                let hid: Vec<&Integer> = b.hidden.iter().map(|(i, _)| &b.base_pairs[*i].1).collect();
+                for (_, c) in &b.public_values {
+                    let mut parts: Vec<&Integer> = hid.clone();
+                    parts.push(&b.base_pairs[0].2);
+                    parts.push(c);
+                    parts.push(&t);
+                    out.push((format!("nispMultiSecrets:{}", path_class(&path)), hash_dec(&parts)));
+                }
+            }
+            for (k, x) in o {
+                walk(x, format!("{}/{}", path, k), b, out);
+            }
+        } else if let Value::Array(a) = v {
+            for (i, x) in a.iter().enumerate() {
+                walk(x, format!("{}/{}", path, i), b, out);
+            }
+        }
+    }
+    walk(&b.json, String::new(), b, &mut out);
+    out
+}
+
+fn attack(ctx: &Ctx, b: &Bundle) {
+    ctx.distinct(&b.label);
+    let ls = leaves(&b.json);
+    let cs = challenges(b);
+    let bound = Integer::from(1) << 64;
+    let mut secrets: Vec<(String, Integer)> = b.secrets.iter().filter(|(k, _)| k != "signature-v").cloned().collect();
+    for (k, v) in &b.derived {
+        secrets.push((format!("derived-witness/{}", k.split(':').nth(1).unwrap_or(k)), v.clone()));
+    }
+    ctx.count("responses_examined", ls.len() as u64);
+    ctx.count("challenges_recomputed", cs.len() as u64);
+    let mut found: Vec<(String, String, String)> = vec![];
+    let near = |q: &Integer, x: &Integer| Integer::from(q - x).abs() < bound;
+    // s / c
+    for (p, s) in &ls {
+        if s.significant_bits() < 64 {
+            continue;
+        }
+        for (cn, c) in &cs {
+            if *c == 0 {
+                continue;
+            }
+            let q = Integer::from(s / c);
+            for (kind, x) in &secrets {
+                if x.significant_bits() >= 64 && near(&q, x) {
+                    // base index stripped: nisp2sec(a_2,b) -> nisp2sec(a_i,b)
+                    let cl: String = cn.split(':').next().unwrap().chars().map(|ch| if ch.is_ascii_digit() { 'i' } else { ch }).collect();
+                    found.push((path_class(p), format!("challenge[{}]", cl), kind.clone()));
+                }
+            }
+        }
+        ctx.count("divisions", cs.len() as u64);
+    }
+    // s / s'
+    for (p, s) in &ls {
+        if s.significant_bits() < 64 {
+            continue;
+        }
+        for (p2, s2) in &ls {
+            if p == p2 || s2.significant_bits() < 64 || s2 > s {
+                continue;
+            }
+            let q = Integer::from(s / s2);
+            if q.significant_bits() < 64 {
+                continue;
+            }
+            for (kind, x) in &secrets {
+                if x.significant_bits() >= 64 && near(&q, x) {
+                    found.push((path_class(p), format!("response[{}]", path_class(p2)), kind.clone()));
+                }
+            }
+        }
+        ctx.count("divisions", ls.len() as u64);
+    }
+    // inversion of Boudot's square decomposition: x' = (floor(d/c)^2 + aa) / 2^T  (side a),
+    // x' = (bb - floor(d/c)^2) / 2^T (side b), from the same-secret sub-proof of each proof of square
+    for (prefix, a, bb_, kind, x) in &b.ranges {
+        let (t, aa, bb) = boudot_public(a, bb_);
+        for side in ["a", "b"] {
+            let get = |f: &str| ls.iter().find(|(p, _)| p == &format!("{}/proof_of_tolerance/proof_of_square_{}/proof_ss/{}", prefix, side, f)).map(|x| x.1.clone());
+            let (Some(d), Some(c)) = (get("d"), get("challenge")) else {
+                ctx.count("range_proofs_without_expected_fields", 1);
+                continue;
+            };
+            if c == 0 {
+                continue;
+            }
+            let q = Integer::from(&d / &c);
+            let q2 = Integer::from(&q * &q);
+            let xr = if side == "a" { Integer::from(&q2 + &aa) >> t } else { Integer::from(&bb - &q2) >> t };
+            ctx.count("boudot_inversions_run", 1);
+            if near(&xr, x) {
+                found.push((format!("{}/proof_of_tolerance/proof_of_square_{}/proof_ss/d", path_class(prefix), side), "challenge[explicit]+square-inversion".into(), kind.clone()));
+            }
+        }
+    }
+    found.sort();
+    found.dedup();
+    for (resp, div, kind) in &found {
+        ctx.violation(
+            &format!("C19:{}:{}/{}~{}", b.kind, resp, div, kind),
+            json!({"proof":b.label,"response":resp,"divisor":div,"recovers":kind}),
+        );
+    }
+    ctx.sample(json!({"proof":b.label,"responses":ls.len(),"challenges":cs.len(),"secrets":secrets.iter().map(|s| s.0.clone()).collect::<Vec<_>>(),"recoveries":found.len()}));
+}
+
+fn run<C: Cs>(ctx: &Ctx, idx: u64, nmax: usize) {
+    let mut r = ctx.rng("c19", idx);
+    let Some(st) = Setup::<C>::new(ctx, nmax) else {
+        ctx.inconclusive("C19: key generation panicked (C18's business)");
+        return;
+    };
+    let bundles = all_bundles::<C>(ctx, &st, &mut r, nmax);
+    ctx.count("proofs_attacked", bundles.len() as u64);
+    par_for_each(&bundles, 12, |b| attack(ctx, b));
+}
+
+pub fn scenarios(ctx: &Ctx) -> Vec<Scenario> {
+    use zkryptium::cl03::ciphersuites::{CL1024Sha256, CL2048Sha256};
+    let mut v = Vec::new();
+    if !ctx.quick() {
+        v.push(scenario("CL2048", move |c| run::<CL2048Sha256>(c, 200, 2)));
+    }
+    let nmax = ctx.t(3usize, 4usize);
+    for i in 0..ctx.t(1u64, 3u64) {
+        v.push(scenario("CL1024", move |c| run::<CL1024Sha256>(c, i, nmax)));
+    }
+    v
+}
